@@ -1860,6 +1860,9 @@ class WCS(GWCSAPIMixin):
         w.wcs.crval = [lon, lat]
         w.wcs.crpix = [crpix1 + 1, crpix2 + 1]
         w.wcs.pc = cdmat if nlon < nlat else cdmat[::-1]
+        # the pole longitude the fit was made with (the FITS default is not
+        # 180 for every projection and pointing)
+        w.wcs.lonpole = 180
         w.wcs.set()
         hdr = w.to_header(True)
 
